@@ -82,8 +82,8 @@ def rule_translation(ctx):
     site = ctx.site(b)
     ev = sym.Eval(fx, inline_depth=0)
     ev.function(b)
-    rights = ev.last_env.get("right", [])
-    lefts = ev.last_env.get("left", [])
+    rights = ev.last_env.get(hq.local_name_of_field(b["body"], "ValidatedExternalEquivalenceTask", "right", "right"), [])
+    lefts = ev.last_env.get(hq.local_name_of_field(b["body"], "ValidatedExternalEquivalenceTask", "left", "left"), [])
     if not rights or not lefts:
         raise AnalysisGap("decompose: locals left/right not found")
     left = lefts[-1]
@@ -152,8 +152,10 @@ def rule_translation(ctx):
     # renaming: only the program side, with the intersection of the private sets, suffix "p"
     mapping = rN[2][1]
     inter = [x for x in sym.subterms(mapping) if isinstance(x, tuple) and x[:2] == ("call", "IndexSet::intersection")]
-    sp = ev.last_env.get("specification_private_predicates", [None])[-1]
-    pp = ev.last_env.get("program_private_predicates", [None])[-1]
+    # the two private sets are the operands of that intersection: the one computed from self.program is the program's
+    ops = list(inter[0][2]) if len(inter) == 1 and len(inter[0][2]) == 2 else [None, None]
+    pp = next((o for o in ops if o is not None and "self.program" in repr(o)), None)
+    sp = next((o for o in ops if o is not None and o is not pp), None)
     ok = rN[2][0] == r0 and len(inter) == 1 and set(inter[0][2]) == {sp, pp} and sp is not None and pp is not None
     ctx.add("FLOW-PIPE", "rename:program-side", ok, site, "rename_predicates is applied to the translated program with the intersection of both private predicate sets")
     ctx.add("FLOW-PIPE", "rename:not-specification", "rename_predicates" not in repr(left), site, "the specification side is never renamed")
@@ -173,16 +175,17 @@ def rule_translation(ctx):
             arms.get("Either::Right(_)") in private_of(("call", "Specification::predicates", (R_,)))
     ctx.add("FLOW-PIPE", "private-sets", pp_ok and sp_ok, site,
             "private predicates of a side = all predicates of that side (Program::predicates / Specification::predicates: heads and bodies) that are not public: program %s, specification %s" % (pp_ok, sp_ok))
-    tk = ev.last_env.get("taken_predicates", [None])[-1]
+    tk_name = hq.local_name_of_arg(b["body"], "ProofOutline::from_specification", 1, "taken_predicates")
+    tk = ev.last_env.get(tk_name, [None])[-1]
     rt = repr(tk)
     ctx.add("FLOW-PIPE", "taken-after-rename", tk is not None and "rename_predicates" in rt and rt.count("Formula::predicates") >= 2 and "input_predicates" in rt, site,
             "taken_predicates = inputs + predicates of left + predicates of the renamed right")
     # user guide assumptions and proof outline placeholders
-    uga = ev.last_env.get("user_guide_assumptions", [None])[-1]
+    uga = ev.last_env.get(hq.local_name_of_field(b["body"], "ValidatedExternalEquivalenceTask", "user_guide_assumptions", "user_guide_assumptions"), [None])[-1]
     pushes = [x for x in sym.subterms(uga) if isinstance(x, tuple) and x[:1] == ("upd",) and x[2] == "push"]
     ok = len(pushes) == 1 and pushes[0][3] == (("call", "AnnotatedFormula::replace_placeholders", (("each", ("call", "UserGuide::formulas", (UG,))), PH)),)
     ctx.add("FLOW-SAN", "placeholders:user-guide", ok, site, "every kept user-guide assumption is pushed after replace_placeholders(placeholders)", construct=pushes[:1])
-    poc = ev.last_env.get("proof_outline_construction", [None])[-1]
+    poc = ev.last_env.get(hq.local_name_of_let_with_call(b["body"], "ProofOutline::from_specification", "proof_outline_construction"), [None])[-1]
     ok = poc is not None and poc[0] == "try" and poc[1][:2] == ("call", "ProofOutline::from_specification") and poc[1][2][0] == ("place", "self.proof_outline") and poc[1][2][2] == PH \
         and poc[1][2][1] == tk
     ctx.add("FLOW-SAN", "placeholders:proof-outline", ok, site, "the proof outline is built by from_specification(self.proof_outline, taken_predicates, placeholders)")
@@ -197,7 +200,7 @@ def rule_translation(ctx):
         if first is not None and first["k"] == "LetStmt" and len(uses) == 1:
             init = strip(first["init"])
             ok = init.get("k") == "MethodCall" and (callee(init) or "").endswith("AnnotatedFormula::replace_placeholders") and hq.contains(init["recv"], uses[0]) \
-                and local_of(init["args"][0]) == "placeholders"
+                and local_of(init["args"][0]) in {p_.get("name") for p_ in fs["params"]}
     ctx.add("FLOW-SAN", "placeholders:outline-entries", ok, ctx.site(fs),
             "every outline entry is rebound to its placeholder-free version as the first statement of the loop and the raw entry is not used otherwise")
     # validated task fields
@@ -343,7 +346,7 @@ def rule_routing(ctx):
     # user guide assumptions: all to stable premises as axioms
     ev = sym.Eval(fx, inline_depth=0)
     ev.function(b)
-    sp = ev.last_env.get("stable_premises", [None])[0]
+    sp = ev.last_env.get(hq.local_name_of_field(b["body"], "AssembledExternalEquivalenceTask", "stable_premises", "stable_premises"), [None])[0]
     # initial value before the loops is the first binding; take the `acc` root
     root = sp
     while isinstance(root, tuple) and root[0] in ("upd", "acc", "phi"):
